@@ -108,6 +108,7 @@ struct Th {
     void* (*fn)(void*);
     void* arg;
     uint32_t steps;       // scheduling steps taken by this thread (for the state hash)
+    uint32_t hook_step_p1; // steps + 1 right after a source hook (osmium_verif_sched_point) returned; 0 = none: the atomic access that follows was announced
 };
 
 struct Point { uint8_t n; uint8_t chosen; uint16_t cost_before; uint64_t costmask; };
@@ -555,11 +556,40 @@ char* strtok(char* str, const char* delim) {
     return r;
 }
 
+// zlib's one-shot decompressor fills caller-supplied memory and the caller then works on it without any synchronisation: a point
+// after the call lets another thread run between "filled" and "used", so a destination that two threads share (a scratch string
+// hoisted to static storage) shows as wrong output under the explorer instead of needing a real-time overlap.
+int uncompress(unsigned char* dest, unsigned long* dest_len, const unsigned char* source, unsigned long source_len) {
+    typedef int (*fn)(unsigned char*, unsigned long*, const unsigned char*, unsigned long);
+    static fn real = reinterpret_cast<fn>(dlsym(RTLD_NEXT, "uncompress"));
+    const int r = real(dest, dest_len, source, source_len);
+    point_after_static_result(-8);
+    return r;
+}
+
 void osmium_verif_sched_point(const char* tag) {
     if (!managed()) return;
     Th* t = cur;
     if (tag && tag[0] == 's') progress();     // "store:..." hooks change shared state
     t->st = S_AT_POINT; t->obj = -3;
+    reschedule(t);
+    t->hook_step_p1 = t->steps + 1;
+}
+
+// Every operation on a std::atomic in a harness built with engine/vsched/atomic_points.hpp (force-included: std::atomic is wrapped)
+// comes through here BEFORE the operation. It is a scheduling point of its own unless
+//   - a source hook (H2-H4) has just announced exactly this access (no scheduling step of this thread in between), or
+//   - it is a load made while the thread owns a managed mutex (the store side and the wait-entry point cover those windows; the
+//     predicate of a condition wait would otherwise be a point on every evaluation).
+// So the unchanged tree has the same decision points with and without the wrapper, and an atomic that a change adds - or a new access to
+// an existing one - is a switching point without a source hook.
+void vsched_atomic_point(const char* tag) {
+    if (!managed()) return;
+    Th* t = cur;
+    if (t->hook_step_p1 == t->steps + 1) { t->hook_step_p1 = 0; return; }
+    if (tag[0] == 'l') { for (int o = 0; o < E.nobj; ++o) if (E.owner[o] == t->id) return; }
+    else progress();
+    t->st = S_AT_POINT; t->obj = -6;
     reschedule(t);
 }
 
